@@ -1,10 +1,13 @@
 import WV.Proofs.PyIRMgr
 
+set_option linter.unusedSimpArgs false
+set_option linter.unusedVariables false
+
 /-!
 Translation validation of method BODIES of the Dilation `Manager`, second part: the way INTO a connection
 (`choose_role`, `_start_connecting` and the two outputs that call it) against `WV.C17`, and the Leader's ping timer
 (`_send_ping_reset_timer`, its nested `timer_expired` / `got_pong`, `send_ping`, `abandon_connection`) against `WV.C17`
-(`beginTiming`, the `.expire` step: `timer_handle_safe`) and `WV.C16` (`mgrOutput .abandon_connection`).
+(`beginTiming`, the `.expire` step: `timer_handle_safe`) and `WV.C16` (`sendPingResetTimer`, `mgrOutput .abandon_connection`).
 -/
 namespace WV.Props.PyIRMgrC16
 open WV WV.PyIR WV.Gen WV.Gen.PyIRMgr WV.Proofs.PyIRC03 WV.Proofs.PyIRDil WV.Proofs.PyIRMgr
@@ -235,6 +238,107 @@ theorem manager_abandon_connection_C16 (fuel : Nat) (h : Store) (s : C16.St) (b 
     mgr_eval [tbl_Manager, m_Manager_abandon_connection, envM, noRaise, ht, hc, encConn, C16.mgrOutput, hcn, hs,
       C16.Err.name, mcall]
 
+/-! ## the ping path against C16 -/
+
+/-- an entry of `_pings_outstanding` for a ping of the C16 model: key = the 4 bytes of its id (`enc`, injective: the model's
+    ids are first-occurrence indices of the byte strings), value = (the `got_pong` callback, the time it was sent) -/
+def encPing16 (enc : Nat → List Nat) (cb : Val) (p : C16.PingRec) : List Nat × Val := (enc p.id, .tuple [cb, .int p.sent])
+
+theorem dget_pings16 (enc : Nat → List Nat) (hinj : Function.Injective enc) (cb : Val) (id : Nat) :
+    ∀ ps : List C16.PingRec, C16.hasId ps id = false → C03.dget (ps.map (encPing16 enc cb)) (enc id) = none
+  | [], _ => rfl
+  | p :: r, hh => by
+    have h1 : ¬ p.id = id := by
+      intro e; simp [C16.hasId, e] at hh
+    have h2 : C16.hasId r id = false := by
+      simp [C16.hasId] at hh ⊢; exact hh.2
+    have h3 : ¬ enc p.id = enc id := fun e => h1 (hinj e)
+    simp [C03.dget, encPing16, h3]
+    exact dget_pings16 enc hinj cb id r h2
+
+theorem dget_pings16_some (enc : Nat → List Nat) (cb : Val) (id : Nat) :
+    ∀ ps : List C16.PingRec, C16.hasId ps id = true → ∃ v, C03.dget (ps.map (encPing16 enc cb)) (enc id) = some v
+  | [], hh => by simp [C16.hasId] at hh
+  | p :: r, hh => by
+    by_cases h1 : p.id = id
+    · exact ⟨.tuple [cb, .int p.sent], by simp [C03.dget, encPing16, h1]⟩
+    · have h2 : C16.hasId r id = true := by
+        simp [C16.hasId, h1] at hh ⊢; exact hh
+      obtain ⟨v, hv⟩ := dget_pings16_some enc cb id r h2
+      by_cases h3 : enc p.id = enc id
+      · exact ⟨.tuple [cb, .int p.sent], by simp [C03.dget, encPing16, h3]⟩
+      · exact ⟨v, by simp [C03.dget, encPing16, h3]; exact hv⟩
+
+theorem dset_pings16 (enc : Nat → List Nat) (hinj : Function.Injective enc) (cb : Val) (id sent : Nat) (wire : Option Nat) :
+    ∀ ps : List C16.PingRec, C16.hasId ps id = false →
+      C03.dset (ps.map (encPing16 enc cb)) (enc id) (.tuple [cb, .int sent]) =
+        (ps ++ [({ id := id, sent := sent, wire := wire } : C16.PingRec)]).map (encPing16 enc cb)
+  | [], _ => by simp [C03.dset, encPing16]
+  | p :: r, hh => by
+    have h1 : ¬ p.id = id := by
+      intro e; simp [C16.hasId, e] at hh
+    have h2 : C16.hasId r id = false := by
+      simp [C16.hasId] at hh ⊢; exact hh.2
+    have h3 : ¬ enc p.id = enc id := fun e => h1 (hinj e)
+    have ih := dset_pings16 enc hinj cb id sent wire r h2
+    simp [C03.dset, encPing16, h3] at ih ⊢
+    exact ih
+
+/-- the `got_pong` callback every keep-alive Ping is registered with -/
+def gotPongV : Val := .obj "closure" [.str "_send_ping_reset_timer.got_pong"]
+
+/-- `Manager._send_ping_reset_timer` = `C16.sendPingResetTimer`: the id drawn is refused (AssertionError, nothing registered,
+    nothing sent, the timer NOT re-armed) iff it is still outstanding (`¬ freshNext`); otherwise the ping is registered with
+    the current time and the `got_pong` callback, `Ping(id)` goes to Outbound, and the timer is started (`callLater`) when
+    there is none, else extended with `delay` (`Flags.ping_timer_uses_delay`) -/
+theorem manager_send_ping_reset_timer_C16 (fuel : Nat) (h : Store) (cfg : C16.Cfg) (s : C16.St) (enc : Nat → List Nat)
+    (hinj : Function.Injective enc) (tv reactor : Val) (io newTimer : Nat)
+    (hp : h.get "_pings_outstanding" = some (.dict (encPings (s.pings.map (encPing16 enc gotPongV)))))
+    (ht : h.get "_timer" = some tv)
+    (hT : (s.timer = none ∧ tv = .none) ∨ (s.timer ≠ none ∧ ∃ id, tv = .ref "DelayedCall" id))
+    (hr : h.get "_reactor" = some reactor) (ho : h.get "_outbound" = some (.ref "Outbound" io))
+    (hint : h.get "_ping_interval" = some (.obj "interval" [])) :
+    let id := C16.pingId s
+    let env := envM noRaise (rets := fun k => if k = 0 then .int s.now else .ref "DelayedCall" newTimer) (rnd := enc id)
+    let o := exec (fuel + 2) env tbl_Manager "_send_ping_reset_timer" [] h
+    let r := C16.sendPingResetTimer cfg s
+    o.exc = r.2.map C16.Err.name ∧
+      o.heap.get "_pings_outstanding" = some (.dict (encPings (r.1.pings.map (encPing16 enc gotPongV)))) ∧
+      ((o.heap.get "_timer" = some .none) ↔ r.1.timer = none) ∧
+      o.calls.map mcall =
+        (if C16.freshNext s then
+          [some .seconds, some (.sendPing (enc id))] ++
+            (if s.timer = none then [some (.callLater "_send_ping_reset_timer.timer_expired")] else [some .timerDelay])
+         else []) := by
+  cases hh : C16.hasId s.pings (C16.pingId s)
+  · have hg := dget_pings16 enc hinj gotPongV (C16.pingId s) s.pings hh
+    have hs := dset_pings16 enc hinj gotPongV (C16.pingId s) s.now (C16.sendIfConnected (C16.afterDraw s)) s.pings hh
+    simp only [gotPongV] at hg hs hp ⊢
+    rcases hT with ⟨hs0, rfl⟩ | ⟨hs0, tid, rfl⟩
+    · mgr_eval [tbl_Manager, m_Manager__send_ping_reset_timer, m_Manager_send_ping, envM, noRaise, extM, hp, hr, ho, hint, ht,
+        dictGet_pings, dictSet_pings, hg, hs, mcall, C16.sendPingResetTimer, C16.sendPing, C16.afterDraw, C16.outstanding,
+        C16.freshNext, C16.Res.andThen, hh, hs0, C16.Err.name]
+    · obtain ⟨dl, hdl⟩ : ∃ dl, s.timer = some dl := by
+        cases hx : s.timer with
+        | none => exact absurd hx hs0
+        | some dl => exact ⟨dl, rfl⟩
+      mgr_eval [tbl_Manager, m_Manager__send_ping_reset_timer, m_Manager_send_ping, envM, noRaise, extM, hp, hr, ho, hint, ht,
+        dictGet_pings, dictSet_pings, hg, hs, mcall, C16.sendPingResetTimer, C16.sendPing, C16.afterDraw, C16.outstanding,
+        C16.freshNext, C16.Res.andThen, hh, hdl, C16.Err.name, Flags.ping_timer_uses_delay]
+  · obtain ⟨v, hg⟩ := dget_pings16_some enc gotPongV (C16.pingId s) s.pings hh
+    simp only [gotPongV] at hg hp ⊢
+    rcases hT with ⟨hs0, rfl⟩ | ⟨hs0, tid, rfl⟩
+    · mgr_eval [tbl_Manager, m_Manager__send_ping_reset_timer, m_Manager_send_ping, envM, noRaise, extM, hp, hr, ho, hint, ht,
+        dictGet_pings, hg, mcall, C16.sendPingResetTimer, C16.sendPing, C16.afterDraw, C16.outstanding,
+        C16.freshNext, C16.Res.andThen, hh, hs0, C16.Err.name]
+    · obtain ⟨dl, hdl⟩ : ∃ dl, s.timer = some dl := by
+        cases hx : s.timer with
+        | none => exact absurd hx hs0
+        | some dl => exact ⟨dl, rfl⟩
+      mgr_eval [tbl_Manager, m_Manager__send_ping_reset_timer, m_Manager_send_ping, envM, noRaise, extM, hp, hr, ho, hint, ht,
+        dictGet_pings, hg, mcall, C16.sendPingResetTimer, C16.sendPing, C16.afterDraw, C16.outstanding,
+        C16.freshNext, C16.Res.andThen, hh, hdl, C16.Err.name]
+
 /-! ## non-vacuity: concrete heaps, concrete runs of the generated bodies -/
 
 def demoHeap : Store :=
@@ -313,3 +417,4 @@ end WV.Props.PyIRMgrC16
 #print axioms WV.Props.PyIRMgrC16.manager_start_connecting_body
 #print axioms WV.Props.PyIRMgrC16.manager_timer_expired
 #print axioms WV.Props.PyIRMgrC16.manager_send_ping_reset_timer
+#print axioms WV.Props.PyIRMgrC16.manager_send_ping_reset_timer_C16
